@@ -49,11 +49,11 @@ BAD_OPT_VALUES = [{'raw': 'x'}, {'raw': 1}, {'trivia': 'zz'}, {'trivia': ('all',
 ERR_WEIGHTS = {'unparsable': 3, 'wrongcat': 5, 'wrongcat-ast': 3, 'wrongcat-fst': 3, 'arglike': 4, 'index': 1.5, 'optname': 0.5,
                'optvalue': 1, 'consumed': 1, 'nonroot': 0.7, 'nonroot-self': 1, 'ownroot': 0.7, 'undeletable': 2.5,
                'to-nonraw': 1, 'one-false': 1, 'raw-unparsable': 1, 'raw-wrongcat': 2, 'badarg': 0.4, 'vslice': 5,
-               'put_src': 2.5, 'root': 1.5, 'delete-field': 2, 'optvalue-stmt': 3}
+               'put_src': 2.5, 'root': 1.5, 'delete-field': 2, 'optvalue-stmt': 3, 'valid-any': 6, 'raw-any': 4}
 
 ERR_KINDS = ['unparsable', 'wrongcat', 'wrongcat-ast', 'wrongcat-fst', 'arglike', 'index', 'optname', 'optvalue',
              'consumed', 'nonroot', 'nonroot-self', 'ownroot', 'undeletable', 'to-nonraw', 'one-false', 'raw-unparsable',
-             'raw-wrongcat', 'badarg', 'vslice', 'put_src', 'root', 'delete-field', 'optvalue-stmt']
+             'raw-wrongcat', 'badarg', 'vslice', 'put_src', 'root', 'delete-field', 'optvalue-stmt', 'valid-any', 'raw-any']
 
 
 def nodes_of(root):
@@ -467,6 +467,67 @@ def _delete_field_req(rng, nodes):
     return {'errkind': 'delete-field', 'op': 'delattr', 'node': i, 'field': fld}
 
 
+# ---- requests that are (mostly) VALID: the property speaks about every call that raises, whatever the request --------
+
+OPS = {'boolop': ['and', 'or'],
+       'operator': ['+', '-', '*', '/', '//', '%', '**', '<<', '>>', '|', '^', '&', '@'],
+       'unaryop': ['not', '-', '+', '~'],
+       'cmpop': ['==', '!=', '<', '<=', '>', '>=', 'is', 'is not', 'in', 'not in']}
+VALID_POOLS = {
+    'expr': ['c12v', 'c12f(1)', '(c12a, c12b)', '[1, 2]', 'a.b', '-1', 'x if y else z', 'lambda: 0', 'a or b', 'a and b and c', 'not a',
+             "'s'", '1.5', 'a < b', 'a + b', 'await z', '*s', 'x := 1', 'yield', 'c12_a_rather_long_name_to_grow_the_line', 'z', '{a: b}',
+             'f"{a}"', 'a[b:c]', '(yield)', 'a if b else c if d else e'],
+    'stmt': ['c12v = 1', 'pass', 'if a: b', 'return', 'del q', 'x: int = 1', 'import os', 'def f(): pass', 'a; b', 'raise', 'break'],
+    'pattern': ['c12v', '1', '[a, b]', '{1: x}', 'C()', '_', 'a | b', '*r', 'a.b', '-1', '"s"', 'None', 'C(a, b=c)'],
+}
+RAW_CODES = ['1  # ', '"s"  # x', 'None #', 'c12v #', '1', "'s'", 'b"x"', '...', 'a.b', '(c12v', 'c12v)', '[', 'lambda:', 'x if',
+             '1 if 2 else', 'not', '-', 'c12v  \\', '# only comment', 'c12v', '1.5', 'True', '(1, 2)', '[a]', 'a or b', 'x = 1', 'pass',
+             'global g', '*s', '**k', 'k=1', 'f(', "f'", 'a, b', 'await x', '1 #\n', '2  # ) ]', "'''"]
+
+
+def _op_category(a):
+    for base, name in ((ast.boolop, 'boolop'), (ast.operator, 'operator'), (ast.unaryop, 'unaryop'), (ast.cmpop, 'cmpop')):
+        if isinstance(a, base):
+            return name
+    return None
+
+
+def _valid_pool(a):
+    oc = _op_category(a)
+    if oc:
+        return OPS[oc]
+    cat = category(a)
+    return VALID_POOLS.get(cat) or [VALID_CODE.get(cat, 'c12v')]
+
+
+def _valid_any_req(rng, nodes, tg):
+    """code of the right category put to any (node, field, index) through any entry point: mostly valid requests, some of
+    them multi-site edits (operators of chains); whatever raises is judged like any other raising call"""
+    if not tg:
+        return None
+    ops_t = [t for t in tg if _op_category(nodes[t[0]].a)]
+    tgt = rng.choice(ops_t) if ops_t and rng.random() < 0.35 else rng.choice(tg)
+    if tgt[4] in ('Load', 'Store', 'Del'):
+        tgt = rng.choice(tg)
+    src = rng.choice(_valid_pool(nodes[tgt[0]].a))
+    return _wrap(rng, tgt, {'k': rng.choice(['src', 'src', 'src', 'fst-any']), 'v': src} if False else {'k': 'src', 'v': src}, errkind='valid-any')
+
+
+def _raw_any_req(rng, nodes, tg):
+    """raw puts (raw=True / 'auto') of code that may well be acceptable: comments swallowing the rest of the line, literals
+    (the reparsed ancestor then has a primitive where the path expects a node), unbalanced brackets ..."""
+    if not tg:
+        return None
+    tgt = rng.choice(tg)
+    if tgt[4] in ('Load', 'Store', 'Del'):
+        tgt = rng.choice(tg)
+    for _ in range(8):
+        req = _wrap(rng, tgt, {'k': 'src', 'v': rng.choice(RAW_CODES)}, {'opts': {'raw': rng.choice([True, True, 'auto'])}}, errkind='raw-any')
+        if 'opts' in req:
+            return req
+    return None
+
+
 OPTION_NAMES = ['raw', 'trivia', 'coerce', 'promote', 'elif_', 'pep8space', 'docstr', 'pars', 'pars_walrus', 'pars_arglike', 'norm',
                 'norm_self', 'norm_get', 'set_norm', 'op_side', 'op', 'args_as']
 OPTION_JUNK = [2, 3, -1, 100, 1.5, 'zz', '', (1, 2, 3), b'x']
@@ -649,9 +710,28 @@ def systematic(rng, root, nodes, cap):
                                      'one': one, 'code': {'k': 'src', 'v': src}})
                     if pos < n:
                         reqs.append({'errkind': 'vslice', 'op': 'put', 'node': i, 'field': fld, 'idx': pos, 'code': {'k': 'src', 'v': src}})
+    first = []
+    for i, f in enumerate(nodes):
+        oc = _op_category(f.a)
+        p = f.parent
+        if oc and p is not None:
+            pi = next(k for k, g in enumerate(nodes) if g is p)
+            pf = f.pfield
+            for o in OPS[oc]:
+                # every operator of the category, through the node and through the parent (multi-site edit on chains)
+                first.append({'errkind': 'valid-any', 'op': 'replace', 'node': i, 'code': {'k': 'src', 'v': o}})
+                first.append({'errkind': 'valid-any', 'op': 'put', 'node': pi, 'field': pf.name, 'idx': pf.idx, 'code': {'k': 'src', 'v': o}})
+        if p is not None and isinstance(f.a, (ast.expr, ast.pattern)) and f.pfield.idx is None and not isinstance(f.a, ast.expr_context):
+            pi = next(k for k, g in enumerate(nodes) if g is p)
+            for code in ('1  # ', "'s' # ", 'c12v # ', '(', '1', 'c12v'):
+                # raw puts that change the kind of an ancestor, through the API that returns the parent and the one that
+                # returns the child
+                reqs.append({'errkind': 'raw-any', 'op': 'put', 'node': pi, 'field': f.pfield.name, 'idx': None,
+                             'code': {'k': 'src', 'v': code}, 'opts': {'raw': True}})
+                reqs.append({'errkind': 'raw-any', 'op': 'replace', 'node': i, 'code': {'k': 'src', 'v': code}, 'opts': {'raw': True}})
     if len(reqs) > cap:
         reqs = rng.sample(reqs, cap)
-    return reqs
+    return first + reqs
 
 
 def gen_invalid(rng, root, nodes, errkind=None):
@@ -667,6 +747,10 @@ def gen_invalid(rng, root, nodes, errkind=None):
         return _delete_field_req(rng, nodes)
     if kind == 'optvalue-stmt':
         return _optvalue_stmt_req(rng, nodes)
+    if kind == 'valid-any':
+        return _valid_any_req(rng, nodes, tg)
+    if kind == 'raw-any':
+        return _raw_any_req(rng, nodes, tg)
     if not tg:
         return None
     tgt = rng.choice(tg)
@@ -809,6 +893,12 @@ SPECIAL = [
     ('with a: b; c', 'exec'), ('match x:\n case 1: a; b\n case _: c', 'exec'), ('try: a; b\nfinally: c; d', 'exec'),
     ('if a:\n    b\nelif c:\n    d\nelse:\n    e', 'exec'), ('def f():\n    if a: b; c\n    elif d: e', 'exec'), ('async def f(): await a; b', 'exec'),
     ('if a: b; c', 'stmt'), ('a; b', 'exec'), ('try: a\nexcept* E: b; c\nelse: d', 'exec'),
+    # operator chains (multi-site edits), attribute / subscript chains (raw puts that change an ancestor)
+    ('a or b or c or d or e', 'exec'), ('x = a and b and c and d and e and f', 'exec'), ('a or b or c or d or e or f or g', 'expr'),
+    ('(a or\n b or c or d or e)', 'exec'), ('a and b or c and d or e', 'exec'), ('a + b + c + d + e', 'exec'), ('a < b < c < d < e < f', 'exec'),
+    ('a or b', 'exec'), ('not not a', 'exec'), ('x **= 2', 'exec'), ('a if b or c or d or e or f else g', 'expr'), ('-a ** -b', 'expr'),
+    ('a is not b not in c', 'expr'), ('x = a.b.c', 'exec'), ('x = a.b.c.d', 'exec'), ('f(a.b).c[d].e', 'exec'), ('x = a[b][c]', 'exec'),
+    ('return a.b', 'stmt'), ('x = (a.b).c', 'exec'), ('a.b.c', 'expr'),
     # arglikes
     ('a, *b, c=1, **d', '_arglikes'), ('k=1, **d', '_arglikes'), ('*a, *b', '_arglikes'), ('a', '_arglikes'),
     ('f(a, *b, c=1, **d)', 'exec'), ('f(**d)', 'exec'), ('f(k=1)', 'exec'), ('f(x for x in y)', 'exec'), ('f()', 'exec'),
